@@ -308,6 +308,10 @@ var failKinds = []failKind{
 	{"uncomputable-indirect-recursion", `{{if .N}}{{template "bad2" .N}}{{end}}{{.S}}<script>`},
 	{"uncomputable-recursion-3-cycle", `{{if .S}}<a title="{{template "bad3" .}}{{end}}`},
 	{"unbalanced-js-template", "<script>var a = `x</script>"},
+	{"action-in-js-template", "<script>var b = `{{.S}}`;</script>"},
+	{"action-in-js-template-substitution", "<script>var b = `a${ {{.S}} }`;</script>"},
+	{"action-in-js-template-after-escaped-backslash", "<script>var a = `\\\\`; var b = `{{.S}}`; var c = `\\\\`;</script>"},
+	{"action-in-js-template-between-escaped-backslashes", "<script>var a = `x\\\\`+`{{.S}}`+`y\\\\`;</script>"},
 	{"disallowed-attr", `<a onclick="{{.S}}">`},
 	{"range-reentry-through-callee", `<ul>{{range .L}}{{template "li" .}}{{else}}<li title="none{{end}}">x</li></ul>`},
 	{"range-reentry-url-query", `<a href="/p/{{range .L}}{{.}}?{{end}}">x</a>`},
